@@ -213,8 +213,12 @@ impl Opcode for JumpI {
         // immediate, allowing us to actually alter the program counter
         match util::validate_jump_destination(&counter, vm) {
             Ok(target) => {
-                // We only want to fork up to the provided limit, so we check if we can first
-                if vm.jump_targets_mut().fork_to(instruction_pointer, target)? {
+                // We only want to fork up to the provided limit, so we check if we can first. The forked
+                // thread inherits this thread's visit counts and starts by executing the target itself,
+                // so it must not be created if the target has already reached its iteration limit.
+                if !vm.state()?.visited_instructions().at_visit_limit(target)?
+                    && vm.jump_targets_mut().fork_to(instruction_pointer, target)?
+                {
                     // If we do have a valid jump target, we need to fork off an execution thread so
                     // that both branches can be executed. Note that the `VM` will step from the
                     // target, but as it is a JUMPDEST no-op this is fine.
